@@ -1,7 +1,7 @@
 (** Declarative specifications for the ribbon controller (properties C15, C16). *)
-From Coq Require Import ZArith Bool List.
+From Coq Require Import ZArith Bool List Reals.
 Import ListNotations.
-From SU Require Import F32.
+From SU Require Import F32 F32Lemmas.
 From SU.gen Require Import Consts.
 From SU.Model Require Import Ribbon.
 Open Scope Z_scope.
@@ -72,3 +72,25 @@ Definition window_value (r : ribbon) (W : list f32) : f32 :=
 (** the capture window of a history: the last [cap] samples of the current run *)
 Definition window (r : ribbon) (samples : list f32) : list f32 :=
   lastn (rb_cap r) (current_run (in_range r) samples).
+
+(** ** C16: the value itself (floating point) *)
+
+(** a sane configuration: in-range boundary in (0, 1], pull-up >= divider resistance
+    (error constant in [0, 1]), fewer discarded samples than the capacity, capacity at most
+    4096 (the helper gives 3265 at 192 kHz) *)
+Definition config_ok (r0 : ribbon) : Prop :=
+  fin (rb_boundary r0) /\ (0 < R32 (rb_boundary r0) <= 1)%R /\
+  fin (rb_err r0) /\ (0 <= R32 (rb_err r0) <= 1)%R /\
+  0 <= rb_discard r0 < Z.of_nat (rb_cap r0) /\ (0 < rb_cap r0 <= 4096)%nat.
+
+(** samples as documented: finite numbers in [0, 1] *)
+Definition sample_ok (x : f32) : Prop := fin x /\ (0 <= R32 x <= 1)%R.
+
+(** real-valued reference: pull-up correction of a position p, and the mean of a window *)
+Definition corr_R (e p : R) : R := (p - (p - p * p) * e)%R.
+Definition mean_R (W : list f32) : R :=
+  (fold_right (fun x acc => R32 x + acc) 0 W / INR (length W))%R.
+
+(** the rounding tolerance of the f32 average over at most [cap] samples *)
+Definition tau (r0 : ribbon) : R := ((INR (rb_cap r0) + 16) / 16777216)%R.
+
